@@ -48,16 +48,6 @@ control_connection::control_connection(net_context & net_context)
 
 void control_connection::connect(std::string_view hostname, std::uint16_t port)
 {
-    /* Start from a clean state: drop the unread data and the SSL mode of the
-     * previous connection.
-     */
-    buffer_.clear();
-
-    if (socket_->has_ssl_support())
-    {
-        set_ssl(nullptr);
-    }
-
     boost::asio::ip::tcp::resolver resolver(socket_->get_executor());
     boost::system::error_code ec;
 
@@ -67,6 +57,17 @@ void control_connection::connect(std::string_view hostname, std::uint16_t port)
     if (ec)
     {
         throw ftp_exception(ec, "Cannot open control connection");
+    }
+
+    /* Start from a clean state: drop the unread data and the SSL mode of the
+     * previous connection. The previous connection is left untouched if the
+     * name cannot be resolved.
+     */
+    buffer_.clear();
+
+    if (socket_->has_ssl_support())
+    {
+        set_ssl(nullptr);
     }
 
     socket_->connect(endpoints, ec);
